@@ -249,6 +249,12 @@ def brace_decls(tokens: Sequence[lexers.Token], lang: str, file_scope: str) -> L
     def idents(ts: Sequence[lexers.Token]) -> List[str]:
         return [t.text for t in top_level(ts) if t.kind == "ident"]
 
+    def kind_of(kind: str) -> str:
+        """Fields outside any type (module-level constants, imports) are 'global's."""
+        if kind == "field" and scopes[-1][0] in ("file", "namespace"):
+            return "global"
+        return kind
+
     for t in toks:
         text = t.text
         if text in ("(", "["):
@@ -286,7 +292,7 @@ def brace_decls(tokens: Sequence[lexers.Token], lang: str, file_scope: str) -> L
             else:
                 found = member_name(stmt)
                 if found is not None:
-                    result.append(Decl(scope_path(), found[0], found[1], found[2]))
+                    result.append(Decl(scope_path(), kind_of(found[0]), found[1], found[2]))
             scopes.append(opened)
             stmt = []
             continue
@@ -312,7 +318,7 @@ def brace_decls(tokens: Sequence[lexers.Token], lang: str, file_scope: str) -> L
                 else:
                     found = member_name(stmt)
                     if found is not None:
-                        result.append(Decl(scope_path(), found[0], found[1], found[2]))
+                        result.append(Decl(scope_path(), kind_of(found[0]), found[1], found[2]))
             if text == ";" and scopes[-1][0] == "enum":
                 scopes[-1][2] = True  # Java: members follow the constants
             stmt = []
@@ -379,7 +385,15 @@ def go_decls(tokens: Sequence[lexers.Token], file_scope: str) -> List[Decl]:
             scope = package
             if toks[k].text == "(":  # receiver
                 end = skip_group(k)
-                receiver = [x.text for x in toks[k:end] if x.kind == "ident"]
+                receiver = []
+                square = 0
+                for x in toks[k:end]:
+                    if x.text == "[":
+                        square += 1
+                    elif x.text == "]":
+                        square -= 1
+                    elif x.kind == "ident" and square == 0:
+                        receiver.append(x.text)  # type parameters are skipped
                 if receiver:
                     scope = f"{package}/{receiver[-1]}"
                 k = end
